@@ -1150,6 +1150,10 @@ static int state_check_process(struct snapraid_state* state, int fix, struct sna
 
 						log_tag("fixed:%u:%s:%s: Fixed size\n", i, disk->name, esc_tag(file->sub, esc_buffer));
 						++recovered_error;
+
+						/* the file is now modified, and its time has to be restored */
+						/* even if no block needs to be fixed */
+						file_flag_set(file, FILE_IS_FIXED);
 					}
 				}
 
